@@ -574,7 +574,12 @@ class VectorizedOptimizer(Generic[_S]):
             axis=0,
         ),
     )
-    top_indices = jnp.argpartition(-all_rewards, count - 1)[:count]
+    # NaN rewards must rank below every number: jnp.argpartition, unlike
+    # np.argpartition, orders NaN first.
+    ranking_rewards = jnp.where(
+        jnp.isnan(all_rewards), -jnp.inf, all_rewards
+    )
+    top_indices = jnp.argpartition(-ranking_rewards, count - 1)[:count]
     return VectorizedStrategyResults(
         rewards=all_rewards[top_indices],
         features=VectorizedOptimizerInput(
